@@ -80,5 +80,6 @@ Lemma guard_table_core :
   /\ forallb (fun k => mem3 k lock_blocked_methods)
           [("_td.py", "TensorDict", "del_"); ("_td.py", "TensorDict", "popitem"); ("_td.py", "TensorDict", "rename_key_");
            ("base.py", "TensorDictBase", "clear"); ("base.py", "TensorDictBase", "update"); ("base.py", "TensorDictBase", "create_nested");
-           ("_lazy.py", "LazyStackedTensorDict", "insert"); ("_lazy.py", "LazyStackedTensorDict", "append")] = true.
+           ("_lazy.py", "LazyStackedTensorDict", "insert"); ("_lazy.py", "LazyStackedTensorDict", "append");
+           ("_lazy.py", "LazyStackedTensorDict", "del_"); ("_lazy.py", "LazyStackedTensorDict", "update")] = true.
 Proof. vm_compute. split; reflexivity. Qed.
